@@ -112,3 +112,7 @@ pub assume_specification [ u8::is_ascii_alphabetic ] (c: &u8) -> (r: bool) ensur
 pub assume_specification [ u8::is_ascii_digit ] (c: &u8) -> (r: bool) ensures r == (0x30 <= *c <= 0x39);
 pub assume_specification [ u8::is_ascii_alphanumeric ] (c: &u8) -> (r: bool) ensures r == ((0x30 <= *c <= 0x39) || (0x41 <= *c <= 0x5a) || (0x61 <= *c <= 0x7a));
 pub assume_specification [ u8::is_ascii ] (c: &u8) -> (r: bool) ensures r == (*c < 0x80);
+pub assume_specification [ u8::to_ascii_lowercase ] (c: &u8) -> (r: u8)
+    ensures r == (if 65 <= *c <= 90 { (*c + 32) as u8 } else { *c });
+pub assume_specification [ u8::to_ascii_uppercase ] (c: &u8) -> (r: u8)
+    ensures r == (if 97 <= *c <= 122 { (*c - 32) as u8 } else { *c });
